@@ -17,7 +17,7 @@ use std::num::NonZeroU32;
 
 use proptest::strategy::{Strategy, ValueTree};
 use proptest::test_runner::{Config as PtConfig, RngAlgorithm, TestRng, TestRunner};
-use rand_core::{CryptoRng, RngCore};
+use rand_core::{CryptoRng, RngCore, SeedableRng};
 use vcommon::*;
 
 use zcash_client_backend::data_api::testing::TestBuilder;
@@ -26,10 +26,14 @@ use zcash_client_sqlite::testing::db::TestDbFactory;
 use zcash_client_sqlite::testing::BlockCache;
 use zcash_client_sqlite::util::SystemClock;
 use zcash_pool_migration::denomination::DenominationPlan;
+use zcash_pool_migration::build::AccountDerivation;
 use zcash_pool_migration::engine::{
+    rebuild_expired_transfer, rebuild_expired_transfer_unsigned, MigrationBackend, MigrationCrypto,
     MigrationState, MigrationStatus, MigrationTransaction, MigrationTransferId, MigrationTxKind,
-    MigrationTxState, PoolMigrationRead, PoolMigrationWrite, ProvedTransaction,
+    MigrationTxState, PoolMigrationRead, PoolMigrationWrite, ProvedTransaction, RebuildError,
 };
+use zcash_pool_migration::scheduling::SchedulingParams;
+use zcash_pool_migration_memory::{regtest_network, spending_key, CommitMock};
 use zcash_pool_migration::preparation::PreparationPlan;
 use zcash_pool_migration::satisfiability::{
     advance_migration, AdvanceConfig, DuenessTargets, ReorgSettleDepth, ReplanThreshold,
@@ -265,6 +269,7 @@ struct TxSpec {
     fail: Option<u32>,
     state: u8, // 0 awaiting 1 signed 2 proved 3 broadcast 4 mined
     mined_h: u32,
+    nf: Option<[u8; 32]>,
 }
 fn build_tx(s: &TxSpec) -> MigrationTransaction {
     let txid = txid_of(s.txid);
@@ -287,7 +292,7 @@ fn build_tx(s: &TxSpec) -> MigrationTransaction {
         state,
         None,
         s.unsat.map(|(a, k)| (h(a), k)),
-        vec![[s.id as u8; 32]],
+        vec![s.nf.unwrap_or([s.id as u8; 32])],
         s.fail.map(h),
     )
 }
@@ -295,7 +300,7 @@ fn build_state(status: MigrationStatus, txs: &[TxSpec], cross: &[u64], thr: u8, 
     let z = |v: u64| Zatoshis::const_from_u64(v);
     let den = DenominationPlan::from_stored_parts(
         cross.iter().map(|v| z(*v)).collect(),
-        z(1000),
+        z(15_000),
         None,
         z(0),
         z(cross.iter().sum::<u64>()),
@@ -329,13 +334,19 @@ const UKINDS: [UnsatisfiableKind; 4] = [
 ];
 
 /// Own generator: a layered dependency DAG around a time window `[base, base+span]`.
-fn gen_dag(r: &mut Rng, sorted_ids: bool, stats: &mut Stats) -> (MigrationState, u32) {
+fn gen_dag(r: &mut Rng, sorted_ids: bool, rb: Option<&RbCtx>, stats: &mut Stats) -> (MigrationState, u32) {
     let n = if r.chance(1, 12) { 0 } else { r.range(1, 7) as usize };
     let ivl = *r.pick(&[1u32, 4, 10, 36, 144, 144, 300]);
     let base = r.range(200, 2000) as u32;
     let span = *r.pick(&[30u32, 120, 600]);
-    let ncross = r.range(0, 4) as usize;
-    let cross: Vec<u64> = (0..ncross).map(|_| *r.pick(&[0u64, 1, 50_000, 100_000, 1_000_000])).collect();
+    let (ncross, cross): (usize, Vec<u64>) = match rb {
+        // transfers funded by the rebuild context's wallet notes (funding value = crossing + fee buffer)
+        Some(c) => (c.values.len(), c.values.iter().map(|v| v - 15_000).collect()),
+        None => {
+            let n = r.range(0, 4) as usize;
+            (n, (0..n).map(|_| *r.pick(&[0u64, 1, 50_000, 100_000, 1_000_000])).collect())
+        }
+    };
     let mut ids: Vec<u32> = Vec::new();
     let mut next = r.below(3) as u32;
     for _ in 0..n {
@@ -400,6 +411,10 @@ fn gen_dag(r: &mut Rng, sorted_ids: bool, stats: &mut Stats) -> (MigrationState,
             fail,
             state,
             mined_h: base.saturating_sub(20) + r.below(span as u64 + 20) as u32,
+            nf: match (&kind, rb) {
+                (MigrationTxKind::Transfer { crossing }, Some(c)) if *crossing < c.nfs.len() => Some(c.nfs[*crossing]),
+                _ => None,
+            },
         });
     }
     if n > 1 && r.chance(1, 4) {
@@ -489,6 +504,7 @@ fn gen_arb(r: &mut Rng, stats: &mut Stats) -> (MigrationState, u32) {
                 fail: t.broadcast_failure_at().map(fh),
                 state,
                 mined_h,
+                nf: None,
             }
         })
         .collect();
@@ -498,6 +514,108 @@ fn gen_arb(r: &mut Rng, stats: &mut Stats) -> (MigrationState, u32) {
     (
         build_state(status, &txs, &cross, s.replan_threshold().percent(), s.anchor_bucket_interval().block_count().get()),
         base,
+    )
+}
+
+
+// ---------------------------------------------------------------------------------------------
+// rebuild context: a wallet holding the funding notes, with a caller-chosen tip and grid
+// ---------------------------------------------------------------------------------------------
+struct RbCtx {
+    mock: CommitMock,
+    values: Vec<u64>,
+    nfs: Vec<[u8; 32]>,
+    seed: u64,
+}
+impl RbCtx {
+    fn new(seed: u64) -> Self {
+        let values = vec![101_000u64, 201_000, 301_000];
+        let mock = CommitMock::new(seed, &values);
+        let nfs = mock.wallet_notes.iter().map(|n| n.nullifier(&mock.fvk).to_bytes()).collect();
+        RbCtx { mock, values, nfs, seed }
+    }
+}
+struct RbBackend<'a> {
+    ctx: &'a RbCtx,
+    tip: u32,
+    params: SchedulingParams,
+    notes_present: bool,
+}
+impl<'a> MigrationBackend for RbBackend<'a> {
+    type Error = Infallible;
+    fn spendable_orchard_note_values(&self) -> Result<Vec<Zatoshis>, Infallible> {
+        Ok(if self.notes_present { self.ctx.values.iter().map(|v| Zatoshis::const_from_u64(*v)).collect() } else { vec![] })
+    }
+    fn chain_tip_height(&self) -> Result<BlockHeight, Infallible> {
+        Ok(h(self.tip))
+    }
+    fn scheduling_params(&self) -> SchedulingParams {
+        self.params
+    }
+}
+impl<'a> MigrationCrypto for RbBackend<'a> {
+    type Error = Infallible;
+    fn orchard_fvk(&self) -> Option<&orchard::keys::FullViewingKey> {
+        Some(&self.ctx.mock.fvk)
+    }
+    fn account_derivation(&self) -> Result<Option<AccountDerivation>, Infallible> {
+        Ok(self.ctx.mock.account_derivation.clone())
+    }
+    fn resolve_wallet_note(&self, index: usize) -> Result<orchard::note::Note, Infallible> {
+        Ok(self.ctx.mock.wallet_notes[index])
+    }
+}
+
+/// Run one rebuild through the public API and describe it as an event + output.
+fn do_rebuild(r: &mut Rng, ctx: &RbCtx, s: &mut MigrationState, id: u32, tip: u32, stats: &mut Stats) -> (String, String) {
+    let ivl = s.anchor_bucket_interval();
+    let grid_ok = !r.chance(1, 12);
+    let grid = if grid_ok { ivl } else { AnchorBucketInterval::custom(NonZeroU32::new(ivl.block_count().get() + 1).unwrap()) };
+    let backend = RbBackend { ctx, tip, params: SchedulingParams::new_with_default_distributions(grid), notes_present: !r.chance(1, 10) };
+    let external = r.chance(1, 3);
+    let net = regtest_network(true);
+    let mut rng = rand_chacha::ChaCha8Rng::from_seed(r.bytes(32).try_into().unwrap());
+    let tid = MigrationTransferId::new(id);
+    let before = s.clone();
+    let res: Result<(), RebuildError<Infallible>> = if external {
+        rebuild_expired_transfer_unsigned(&net, &backend, s, tid, &mut rng).map(|_| ())
+    } else {
+        rebuild_expired_transfer(&net, &backend, &spending_key(ctx.seed), s, tid, &mut rng)
+    };
+    let (out, crypto_ok) = match &res {
+        Ok(()) => ("RbOk".to_string(), true),
+        Err(RebuildError::AnchorIntervalMismatch { .. }) => ("(RbErr RMismatch)".to_string(), false),
+        Err(RebuildError::UnknownTransaction(_)) => ("(RbErr RUnknown)".to_string(), false),
+        Err(RebuildError::NotATransfer(_)) => ("(RbErr RNotTransfer)".to_string(), false),
+        Err(RebuildError::Unsatisfiable(_)) => ("(RbErr RUnsatisfiable)".to_string(), false),
+        Err(RebuildError::NotExpired(_)) => ("(RbErr RNotExpired)".to_string(), false),
+        Err(_) => ("RbLate".to_string(), false),
+    };
+    *stats.rebuilds.entry(match &res {
+        Ok(()) => "ok",
+        Err(RebuildError::AnchorIntervalMismatch { .. }) => "grid_mismatch",
+        Err(RebuildError::UnknownTransaction(_)) => "unknown",
+        Err(RebuildError::NotATransfer(_)) => "not_transfer",
+        Err(RebuildError::Unsatisfiable(_)) => "unsatisfiable",
+        Err(RebuildError::NotExpired(_)) => "not_expired",
+        Err(RebuildError::FundingNoteUnavailable(_)) => "late_note_unavailable",
+        Err(RebuildError::NoCandidateAnchor) => "late_no_anchor",
+        Err(RebuildError::InconsistentPlan(_)) => "late_inconsistent_plan",
+        Err(_) => "late_other",
+    }).or_default() += 1;
+    let (sched, anchor, txid) = match (&res, s.transactions().iter().find(|t| t.id() == tid)) {
+        (Ok(()), Some(t)) => (u32::from(t.scheduled_height()), t.anchor_boundary().map(u32::from).unwrap_or(0), txid_num(&t.txid())),
+        _ => (0, 0, 0),
+    };
+    if let Err(e) = &res {
+        if std::env::var("C18_DEBUG").is_ok() { eprintln!("rebuild err: {:?}", e); }
+    }
+    if res.is_err() {
+        assert!(*s == before, "a failed rebuild must leave the state untouched");
+    }
+    (
+        format!("(ERebuild {} {} {} {} {} {} {} {})", id, tip, boolc(grid_ok), boolc(crypto_ok), boolc(external), sched, anchor, txid),
+        format!("(ORebuild {})", out),
     )
 }
 
@@ -518,6 +636,7 @@ struct Stats {
     persisted: u64,
     rt_fail: u64,
     contract_breaking: u64,
+    rebuilds: BTreeMap<&'static str, u64>,
     reversed: u64,
     tx_counts: BTreeMap<usize, u64>,
     panics: u64,
@@ -527,14 +646,87 @@ struct Persist<'a> {
     conn: &'a mut rusqlite::Connection,
     account: zcash_client_sqlite::AccountUuid,
     net: zcash_protocol::local_consensus::LocalNetwork,
+    tables: &'a (String, String, String), // migrations, transactions, transaction_deps
+}
+
+/// What `replace_migration` wrote, read with plain SELECTs in insertion order: the newest parent
+/// row's status / threshold / interval and its transaction and dependency rows, as Coq terms.
+fn dump_rows(conn: &rusqlite::Connection, t: &(String, String, String)) -> Result<String, rusqlite::Error> {
+    let (mid, status, thr, ivl): (i64, String, i64, i64) = conn.query_row(
+        &format!("SELECT id, status, replan_threshold, anchor_bucket_interval FROM {} ORDER BY id DESC LIMIT 1", t.0),
+        [],
+        |r| Ok((r.get(0)?, r.get(1)?, r.get(2)?, r.get(3)?)),
+    )?;
+    let st = match status.as_str() {
+        "planning" => "Planning",
+        "committed" => "Committed",
+        "in_progress" => "InProgress",
+        "complete" => "Complete",
+        "failed" => "Failed",
+        "superseded" => "Superseded",
+        "cancelled" => "Cancelled",
+        _ => "UnknownStatus",
+    };
+    let oz = |x: Option<i64>| opt(x.map(|v| format!("{}", v)));
+    let mut stmt = conn.prepare(&format!(
+        "SELECT transfer_id, kind, kind_layer, kind_index, kind_crossing, scheduled_height, expiry_height,
+                anchor_boundary, state, txid, mined_height, unsatisfiable_at, unsatisfiable_kind, broadcast_failure_at
+           FROM {} WHERE migration_id = ? ORDER BY rowid",
+        t.1
+    ))?;
+    let rows: Vec<String> = stmt
+        .query_map([mid], |r| {
+            let kind: String = r.get(1)?;
+            let state: String = r.get(8)?;
+            let txid: Option<Vec<u8>> = r.get(9)?;
+            let uk: Option<String> = r.get(12)?;
+            Ok(format!(
+                "MkRow {} {} {} {} {} {} {} {} {} {} {} {} {} {}",
+                r.get::<_, i64>(0)?,
+                match kind.as_str() { "preparation" => "NPrep", "transfer" => "NTransfer", _ => "NUnknownKind" },
+                oz(r.get(2)?),
+                oz(r.get(3)?),
+                oz(r.get(4)?),
+                r.get::<_, i64>(5)?,
+                r.get::<_, i64>(6)?,
+                oz(r.get(7)?),
+                match state.as_str() {
+                    "awaiting_signature" => "NAwaiting",
+                    "signed" => "NSigned",
+                    "proved" => "NProved",
+                    "broadcast" => "NBroadcast",
+                    "mined" => "NMined",
+                    _ => "NUnknownState",
+                },
+                opt(txid.map(|b| format!("{}", u32::from_le_bytes([b[0], b[1], b[2], b[3]])))),
+                oz(r.get(10)?),
+                oz(r.get(11)?),
+                opt(uk.map(|k| match k.as_str() {
+                    "inputs_spent" => "KSpent",
+                    "inputs_invalidated" => "KInvalidated",
+                    "anchor_invalidated" => "KAnchor",
+                    "inherited" => "KInherited",
+                    _ => "KUnknown",
+                }.to_string())),
+                oz(r.get(13)?)
+            ))
+        })?
+        .collect::<Result<_, _>>()?;
+    let mut stmt = conn.prepare(&format!(
+        "SELECT transfer_id, ordinal, depends_on_transfer_id FROM {} WHERE migration_id = ? ORDER BY rowid",
+        t.2
+    ))?;
+    let deps: Vec<String> = stmt
+        .query_map([mid], |r| Ok(format!("MkDep {} {}%nat {}", r.get::<_, i64>(0)?, r.get::<_, i64>(1)?, r.get::<_, i64>(2)?)))?
+        .collect::<Result<_, _>>()?;
+    Ok(format!("{} {} {} {} {}", st, thr, ivl, list(rows), list(deps)))
 }
 impl<'a> Persist<'a> {
     /// Save with `replace_migration`, load back, compare; count live migrations.
-    fn roundtrip(&mut self, s: &MigrationState) -> (bool, bool, bool) {
-        let t0 = std::time::Instant::now();
+    fn roundtrip(&mut self, s: &MigrationState) -> ((bool, bool, bool), String) {
         let r = self.roundtrip_inner(s);
-        unsafe { RT_NANOS += t0.elapsed().as_nanos() as u64; }
-        r
+        let d = dump_rows(&*self.conn, self.tables).unwrap_or_else(|e| format!("DumpFailed_{:?}", e).replace(' ', "_"));
+        (r, d)
     }
     fn roundtrip_inner(&mut self, s: &MigrationState) -> (bool, bool, bool) {
         let t0 = std::time::Instant::now();
@@ -571,15 +763,15 @@ fn ids_of(s: &MigrationState) -> Vec<u32> {
     s.transactions().iter().map(|t| u32::from(t.id())).collect()
 }
 
-fn emit(pre: &str, ev: String, post: &MigrationState, out: String, pers: Option<(bool, bool, bool)>) {
+fn emit(pre: &str, ev: String, post: &MigrationState, out: String, pers: Option<((bool, bool, bool), String)>) {
     let p = match pers {
         None => "PNone".to_string(),
-        Some((a, b, c)) => format!("(PRt {} {} {})", boolc(a), boolc(b), boolc(c)),
+        Some(((a, b, c), d)) => format!("(PRows {} {} {} {})", boolc(a), boolc(b), boolc(c), d),
     };
     case(format!("Case {} {} {} {} {}", pre, ev, p_state(post), out, p));
 }
 
-fn run_sequence(r: &mut Rng, mut s: MigrationState, base: u32, len: usize, mut persist: Option<&mut Persist>, stats: &mut Stats) {
+fn run_sequence(r: &mut Rng, mut s: MigrationState, base: u32, len: usize, mut persist: Option<&mut Persist>, rb: Option<&RbCtx>, stats: &mut Stats) {
     stats.seqs += 1;
     *stats.tx_counts.entry(s.transactions().len()).or_default() += 1;
     let mut scanned = base + r.below(40) as u32;
@@ -588,7 +780,7 @@ fn run_sequence(r: &mut Rng, mut s: MigrationState, base: u32, len: usize, mut p
         // the initial state itself must round-trip
         let rt = p.roundtrip(&s);
         stats.persisted += 1;
-        if rt != (true, true, true) {
+        if rt.0 != (true, true, true) {
             stats.rt_fail += 1;
         }
         emit(&p_state(&s), "ENoop".into(), &s, "OUnit".into(), Some(rt));
@@ -612,6 +804,11 @@ fn run_sequence(r: &mut Rng, mut s: MigrationState, base: u32, len: usize, mut p
                     s.mark_broadcast(MigrationTransferId::new(id));
                     ("record_broadcast", format!("(ERecordBroadcast {})", id), "OUnit".into())
                 }
+            }
+            Some(AdvanceStep::Rebuild { id }) if rb.is_some() && r.chance(5, 6) => {
+                // the contracted response to a Rebuild offer, at the tip the offer was made at
+                let (ev, out) = do_rebuild(r, rb.unwrap(), &mut s, u32::from(id), scanned.saturating_sub(1), stats);
+                ("rebuild", ev, out)
             }
             Some(AdvanceStep::Replan) if r.chance(1, 3) => {
                 s.mark_superseded();
@@ -797,6 +994,16 @@ fn run_sequence(r: &mut Rng, mut s: MigrationState, base: u32, len: usize, mut p
                 } else if roll < 90 {
                     s.recompute_status();
                     ("recompute", "ERecompute".into(), "OUnit".into())
+                } else if roll < 92 && rb.is_some() {
+                    // a rebuild driven from outside the offer (expired_transactions is public)
+                    let id = any_id(r);
+                    let tip = match r.below(3) {
+                        0 => scanned.saturating_sub(1),
+                        1 => scanned + r.below(60) as u32,
+                        _ => scanned.saturating_sub(r.below(60) as u32),
+                    };
+                    let (ev, out) = do_rebuild(r, rb.unwrap(), &mut s, id, tip, stats);
+                    ("rebuild_any", ev, out)
                 } else if roll < 95 {
                     // contract-BREAKING stream: a broadcast recorded for an arbitrary row
                     stats.contract_breaking += 1;
@@ -817,7 +1024,7 @@ fn run_sequence(r: &mut Rng, mut s: MigrationState, base: u32, len: usize, mut p
         let pers = persist.as_deref_mut().map(|p| {
             let rt = p.roundtrip(&s);
             stats.persisted += 1;
-            if rt != (true, true, true) {
+            if rt.0 != (true, true, true) {
                 stats.rt_fail += 1;
             }
             rt
@@ -849,7 +1056,7 @@ fn lattices(stats: &mut Stats) {
     const T: u32 = 1000;
     let base = |id: u32, state: u8| TxSpec {
         id, kind: MigrationTxKind::Transfer { crossing: 0 }, deps: vec![], sched: T, expiry: 0, anchor: None,
-        txid: 100 + id, unsat: None, fail: None, state, mined_h: T - 50,
+        txid: 100 + id, unsat: None, fail: None, state, mined_h: T - 50, nf: None,
     };
     // broadcast queue: schedule x expiry x targets x report x mark x dependency state
     for sched in [T - 1, T, T + 1] {
@@ -934,6 +1141,7 @@ fn witnesses(stats: &mut Stats) {
         fail: None,
         state,
         mined_h: 90,
+        nf: None,
     };
     // (1) mark_broadcast on a Mined row
     let mut s = build_state(MigrationStatus::Complete, &[t(0, 4, vec![])], &[100_000], 20, 144);
@@ -951,6 +1159,32 @@ fn witnesses(stats: &mut Stats) {
     let pre = p_state(&s);
     s.truncate_to_height(h(89));
     emit(&pre, "(ERollback 89)".into(), &s, "OUnit".into(), None);
+    // (4) anchor boundaries at the top of the u32 range: `prove_ready` and the overdue test add
+    //     PROVABLE_ANCHOR_DEPTH (+1) to the boundary
+    for (anchor, state) in [(u32::MAX - 5, 1u8), (u32::MAX - 10, 1), (u32::MAX - 11, 1), (u32::MAX, 1), (u32::MAX - 5, 2)] {
+        for (scanned, est) in [(1000u32, 1000u32), (u32::MAX, u32::MAX), (u32::MAX - 1, u32::MAX)] {
+            let mut x = t(0, state, vec![]);
+            x.anchor = Some(anchor);
+            x.sched = 900;
+            let s = build_state(MigrationStatus::Committed, &[x], &[100_000], 20, 144);
+            let pre = p_state(&s);
+            let mut store = Store { answers: BTreeMap::new(), default: Ans::Sat(scanned - 1), mined: BTreeMap::new(), replaced: 0, queries: 0 };
+            let mut rng = ScriptRng { ages: vec![1], pos: 0 };
+            let res = catch(|| {
+                let mut s2 = s.clone();
+                let a = advance_migration(&mut store, &mut s2, DuenessTargets::new(h(scanned), h(est)), &AdvanceConfig::new(ReorgSettleDepth::new(10)), &mut rng).unwrap();
+                (s2, a.step().clone(), store.replaced)
+            });
+            let ev = format!("(EAdvance {} {} [] (Sat {}) [] [1])", scanned, est, scanned - 1);
+            match res {
+                Some((s2, step, rep)) => emit(&pre, ev, &s2, format!("(OStep {} {})", p_step(&step), boolc(rep > 0)), None),
+                None => {
+                    stats.panics += 1;
+                    emit(&pre, ev, &s, "OPanic".into(), None)
+                }
+            }
+        }
+    }
     stats.seqs += 3;
 }
 
@@ -959,15 +1193,31 @@ fn main() {
     quiet_panics();
     let mut stats = Stats::default();
     let mut r = Rng::new(a.seed, 18);
+    // table names: regenerated from orchard_ironwood.rs by vlib/props/c18.py and passed in; the
+    // built-in names are only a fallback for manual runs
+    let tables: (String, String, String) = {
+        let mut t = (
+            "orchard_ironwood_migrations".to_string(),
+            "orchard_ironwood_migration_transactions".to_string(),
+            "orchard_ironwood_migration_transaction_deps".to_string(),
+        );
+        if let Some(i) = a.rest.iter().position(|x| x == "--tables") {
+            let v: Vec<&str> = a.rest[i + 1].split(',').collect();
+            t = (v[0].to_string(), v[1].to_string(), v[2].to_string());
+        }
+        t
+    };
     let nseq = a.budget(800, 6000);
     let nseq = if a.search { nseq * 2 } else { nseq };
     let persist_every = 5;
 
     witnesses(&mut stats);
     lattices(&mut stats);
+    let rbctx = RbCtx::new(7);
     for i in 0..nseq {
         let persisted = i % persist_every == 0;
-        let (s, base) = if r.chance(1, 4) { gen_arb(&mut r, &mut stats) } else { gen_dag(&mut r, persisted, &mut stats) };
+        let use_rb = i % 2 == 1;
+        let (s, base) = if r.chance(1, 4) { gen_arb(&mut r, &mut stats) } else { gen_dag(&mut r, persisted, if use_rb { Some(&rbctx) } else { None }, &mut stats) };
         // the SQLite store returns rows in id order: persistence sequences use canonical order
         let s = if persisted {
             let mut txs: Vec<MigrationTransaction> = s.transactions().clone();
@@ -990,17 +1240,17 @@ fn main() {
             };
             let net = *st.network();
             let _ = st.wallet_mut().conn_mut().execute_batch("PRAGMA synchronous = OFF; PRAGMA journal_mode = MEMORY;");
-            let mut p = Persist { conn: st.wallet_mut().conn_mut(), account, net };
-            run_sequence(&mut r, s, base, len, Some(&mut p), &mut stats);
+            let mut p = Persist { conn: st.wallet_mut().conn_mut(), account, net, tables: &tables };
+            run_sequence(&mut r, s, base, len, Some(&mut p), if use_rb { Some(&rbctx) } else { None }, &mut stats);
         } else {
-            run_sequence(&mut r, s, base, len, None, &mut stats);
+            run_sequence(&mut r, s, base, len, None, if use_rb { Some(&rbctx) } else { None }, &mut stats);
         }
     }
     let j = |m: &BTreeMap<&'static str, u64>| -> String {
         format!("{{{}}}", m.iter().map(|(k, v)| format!("\"{}\":{}", k, v)).collect::<Vec<_>>().join(","))
     };
     stat(format!(
-        "{{\"sequences\":{},\"states_dag\":{},\"states_crate_strategy\":{},\"events\":{},\"advance_steps\":{},\"advance_calls_that_shifted\":{},\"sqlite_roundtrips\":{},\"sqlite_roundtrip_failures\":{},\"contract_breaking_events\":{},\"states_with_forward_dependencies\":{},\"panics\":{},\"tx_count_hist\":{{{}}}}}",
+        "{{\"sequences\":{},\"states_dag\":{},\"states_crate_strategy\":{},\"events\":{},\"advance_steps\":{},\"advance_calls_that_shifted\":{},\"sqlite_roundtrips\":{},\"sqlite_roundtrip_failures\":{},\"rebuilds\":{},\"contract_breaking_events\":{},\"states_with_forward_dependencies\":{},\"panics\":{},\"tx_count_hist\":{{{}}}}}",
         stats.seqs,
         stats.dag,
         stats.arb,
@@ -1009,6 +1259,7 @@ fn main() {
         stats.shifts,
         stats.persisted,
         stats.rt_fail,
+        j(&stats.rebuilds),
         stats.contract_breaking,
         stats.reversed,
         stats.panics,
